@@ -1,4 +1,5 @@
 import GrassProofs.Lemmas.Num
+import GrassProofs.Lemmas.NumScan
 /-
   C07 — Numbers are IEEE doubles with Sass rounding, modulo and printing rules.
   Property theorems about the model `Grass/Num.lean`.
@@ -334,5 +335,100 @@ theorem C07_rnd53_ties_even (N D : Nat) (h : 2 * (N % D) = D) : divRoundEven N D
   divRoundEven_tie_even N D h
 example : rnd53 (9007199254740993 : Rat) = 9007199254740992 ∧ rnd53 (9007199254740995 : Rat) = 9007199254740996 := by
   decide +kernel
+
+/-! ## round 3 — the arithmetic clause as theorems about the model's `+ - * /` -/
+
+/-- `+` inside the guard (finite, non-zero exact sum, result finite): the exact sum rounded ONCE to the
+    nearest double, relative error ≤ 2⁻⁵³, inside the normal range. -/
+theorem C07_add_correctly_rounded (x y r : Rat) (hne : x + y ≠ 0) (h : D.add (.fin x) (.fin y) = some (.fin r)) :
+    r = rnd53 (x + y) ∧ absQ (r - (x + y)) * 9007199254740992 ≤ absQ (x + y) ∧ absQ r < pow2 1024 ∧ -1022 ≤ expOf r :=
+  ofExact_fin (x + y) false r hne (by rw [← C07_add_rounded_exact]; exact h)
+theorem C07_sub_correctly_rounded (x y r : Rat) (hy : y ≠ 0) (hne : x - y ≠ 0) (h : D.sub (.fin x) (.fin y) = some (.fin r)) :
+    r = rnd53 (x - y) ∧ absQ (r - (x - y)) * 9007199254740992 ≤ absQ (x - y) ∧ absQ r < pow2 1024 ∧ -1022 ≤ expOf r :=
+  ofExact_fin (x - y) false r hne (by rw [← sub_fin_fin x y hy]; exact h)
+theorem C07_mul_correctly_rounded (x y r : Rat) (hne : x * y ≠ 0) (h : D.mul (.fin x) (.fin y) = some (.fin r)) :
+    r = rnd53 (x * y) ∧ absQ (r - x * y) * 9007199254740992 ≤ absQ (x * y) ∧ absQ r < pow2 1024 ∧ -1022 ≤ expOf r :=
+  ofExact_fin (x * y) _ r hne (by rw [← C07_mul_rounded_exact]; exact h)
+theorem C07_div_correctly_rounded (x y r : Rat) (hy : y ≠ 0) (hne : x / y ≠ 0) (h : D.div (.fin x) (.fin y) = some (.fin r)) :
+    r = rnd53 (x / y) ∧ absQ (r - x / y) * 9007199254740992 ≤ absQ (x / y) ∧ absQ r < pow2 1024 ∧ -1022 ≤ expOf r :=
+  ofExact_fin (x / y) _ r hne (by rw [← div_fin_fin x y hy]; exact h)
+example : D.div (.fin 1) (.fin 3) = some (.fin (6004799503160661/18014398509481984)) ∧
+    D.sub (.fin (dLit "0.3")) (.fin (dLit "0.1")) = some (.fin (dLit "0.19999999999999998")) := by decide +kernel
+
+/-- what the model refuses: exactly the non-zero results whose rounded value lies BELOW the normal range
+    (answered `unsupported`, never guessed) … -/
+theorem C07_arith_unsupported_iff (q : Rat) (z : Bool) :
+    D.ofExact q z = none ↔ q ≠ 0 ∧ absQ (rnd53 q) < pow2 1024 ∧ expOf (rnd53 q) < -1022 := ofExact_none_iff q z
+/-- … while overflow is not refused: a result that rounds to 2¹⁰²⁴ or more is ±Infinity by its sign. -/
+theorem C07_arith_overflow_infinity (q : Rat) (z : Bool) (hq : q ≠ 0) (h : pow2 1024 ≤ absQ (rnd53 q)) :
+    D.ofExact q z = some (D.inf (decide (q < 0))) := ofExact_inf q z hq h
+example : D.mul (.fin (dLit "1e200")) (.fin (dLit "-1e200")) = some .ninf ∧
+    D.mul (.fin (dLit "1e-200")) (.fin (dLit "1e-200")) = none := by decide +kernel
+
+/-- division by NEGATIVE zero: the sign flips (`1 / -0` is `-Infinity`), `0 / -0` is NaN. -/
+theorem C07_div_negzero (x : Rat) :
+    D.div (.fin x) .nz = some (if x = 0 then .nan else if x < 0 then .pinf else .ninf) := by
+  unfold D.div
+  by_cases h0 : x = 0
+  · subst h0; decide +kernel
+  · by_cases hn : x < 0 <;> simp [D.isInf, D.isZero, D.isNeg, D.inf, h0, hn]
+example : D.div .nz (.fin 0) = some .nan ∧ D.div .nz .nz = some .nan ∧ D.div .nz (.fin 2) = some .nz := by decide +kernel
+
+/-- a finite number (negative zero included) is never printed as `-0`. -/
+theorem C07_print_never_neg_zero (c : Bool) (q : Rat) :
+    printD false c (.fin q) ≠ ['-', '0'] ∧ printD false c .nz ≠ ['-', '0'] := by
+  have h2 : shapeOK ['-', '0'] = false := by decide +kernel
+  refine ⟨fun h => ?_, by cases c <;> decide⟩
+  have hs := printFinite_shape c q
+  have h' : printFinite false c q = ['-', '0'] := h
+  rw [h', h2] at hs
+  exact Bool.noConfusion hs
+example : printD false true .nz = ['0'] ∧ printD false false (.fin (dLit "-0.00000000001")) = ['0'] := by decide +kernel
+
+/-! ## round 3 — number literals: `parse_number` as a prefix scanner, decimal → double -/
+
+/-- **A literal denotes the correctly rounded double of its decimal text** (any number of digits, any
+    exponent spelling): inside the guard (non-zero value, finite result) the double is `rnd53` of the exact
+    value — the nearest 53-bit value, ties to even (`C07_rnd53_nearest`, `C07_rnd53_ties_even`). -/
+theorem C07_literal_correctly_rounded (l : Lit) (r : Rat) (hv : l.value ≠ 0) (h : litD l = some (.fin r)) :
+    r = rnd53 l.value ∧ absQ (r - l.value) * 9007199254740992 ≤ absQ l.value ∧
+    ∃ (m : Nat) (e : Int), absQ r = (m : Rat) * pow2 e ∧ 4503599627370496 ≤ m ∧ m ≤ 9007199254740992 ∧
+      2 * absQ (r - l.value) ≤ pow2 e ∧ ∀ j : Int, absQ (r - l.value) ≤ absQ ((j : Rat) * pow2 e - absQ l.value) := by
+  obtain ⟨h1, h2, _, _⟩ := ofExact_fin l.value l.neg r hv h
+  obtain ⟨m, e, a, b, c, _, _, d, f⟩ := rnd53_nearest l.value hv
+  subst h1
+  exact ⟨rfl, h2, m, e, a, b, c, d, f⟩
+/-- a literal whose value rounds to 2¹⁰²⁴ or beyond is ±Infinity (Rust `parse::<f64>` overflow). -/
+theorem C07_literal_overflow_infinity (l : Lit) (hv : l.value ≠ 0) (h : pow2 1024 ≤ absQ (rnd53 l.value)) :
+    litD l = some (D.inf (decide (l.value < 0))) := ofExact_inf l.value l.neg hv h
+example : (parseLit "9007199254740993".toList).bind litD = some (.fin 9007199254740992) ∧
+    (parseLit "0.1000000000000000055511151231257827021181583404541015625".toList).bind litD = some (.fin (dLit "0.1")) ∧
+    (parseLit "1.797693134862315807e308".toList).bind litD = (parseLit "1.7976931348623157e308".toList).bind litD ∧
+    (parseLit "-1.797693134862315808e308".toList).bind litD = some .ninf := by decide +kernel
+
+/-- **The prefix scanner (`parse_number` as written) accepts every complete literal of the grammar
+    `parseLit`, with the same digits, and consumes all of it** — so the printing/re-reading theorems, stated
+    with `parseLit`, speak about what `parse_number` reads back. -/
+theorem C07_scan_complete (s : List Char) (l : Lit) (h : parseLit s = some l) : scanNumber s = .ok l [] :=
+  scanNumber_of_parseLit s l h
+/-- the converse direction (what the scanner consumed is a literal of the grammar with the same digits) is
+    NOT proved; the driver checks it on every generated text (`same=` in `num scan`). -/
+def C07_scan_sound_full : Prop :=
+  ∀ s l rest, scanNumber s = .ok l rest → ∃ pre, s = pre ++ rest ∧ parseLit pre = some l
+example : scanNumber "+.5e1px".toList = .ok ⟨false, [], ['5'], 1⟩ ['p', 'x'] ∧ scanNumber "5.;".toList = .ok ⟨false, ['5'], [], 0⟩ ['.', ';'] ∧
+    scanNumber "5.".toList = .expectedDigit ∧ scanNumber "1e-x".toList = .expectedDigit ∧
+    scanNumber "1em".toList = .ok ⟨false, ['1'], [], 0⟩ ['e', 'm'] ∧ scanNumber ".;".toList = .expectedDigit := by decide +kernel
+
+/-! ## round 3 — sass:math min / max / clamp (no libm) -/
+
+/-- `math.min` / `math.max` of two finite numbers return one of the arguments, the second only when it is
+    tolerance-aware `<` / `>` the first; neither argument is then `<` (resp. `>`) the result. -/
+theorem C07_min_two (x y : Rat) :
+    minD (.fin x) [.fin y] = (if fuzzyLt fuzzyEqF y x = true then .fin y else .fin x) ∧
+    maxD (.fin x) [.fin y] = (if fuzzyLt fuzzyEqF x y = true then .fin y else .fin x) := by
+  have h := C07_lt_le_now y x
+  constructor <;> simp [minD, maxD, h.1, h.2.2.1]
+example : minD (.fin 1) [.fin (dLit "1.000000000001"), .fin (dLit "0.999999999999")] = .fin 1 ∧
+    clampD (.fin 1) (.fin (dLit "0.5")) (.fin 3) = .fin 1 ∧ clampD (.fin 1) (.fin 7) (.fin 3) = .fin 3 := by decide +kernel
 
 end Grass.Num
